@@ -95,6 +95,8 @@ type GenTenant struct {
 	Denom  string `json:"denom"`
 	Period uint64 `json:"period"`
 	Method string `json:"method"`
+	// token contract of an imported mintable-contract tenant: a genesis file may hold anything here, also nothing
+	Contract string `json:"contract,omitempty"`
 }
 type GenRecip struct {
 	Addr   string `json:"addr"` // hex
@@ -316,7 +318,7 @@ func (h HGenesis) spec() GenesisSpec {
 		for _, a := range t.Admins {
 			admins = append(admins, MakeAcct(a).Bech())
 		}
-		g.Tenants = append(g.Tenants, settlementtypes.Tenant{Id: t.Id, Admins: admins, Denom: t.Denom, PayoutPeriod: t.Period, PayoutMethod: t.Method})
+		g.Tenants = append(g.Tenants, settlementtypes.Tenant{Id: t.Id, Admins: admins, Denom: t.Denom, PayoutPeriod: t.Period, PayoutMethod: t.Method, ContractAddress: t.Contract})
 	}
 	for _, u := range h.Utxrs {
 		var rs []*settlementtypes.Recipient
@@ -431,7 +433,7 @@ func (e *Exec) toSdkMsg(m Msg) sdk.Msg {
 	case "create_tenant":
 		return settlementtypes.NewMsgCreateTenant(snd(), e.realDenom(m.Denom), m.Period)
 	case "create_tenant_mc":
-		return settlementtypes.NewMsgCreateTenantWithMintableContract(acct(m.Sender).Bech(), m.Denom, m.Period, "")
+		return settlementtypes.NewMsgCreateTenantWithMintableContract(acct(m.Sender).Bech(), m.Denom, m.Period, m.Contract)
 	case "add_admin":
 		return settlementtypes.NewMsgAddTenantAdmin(snd(), m.Tid, adm())
 	case "remove_admin":
@@ -1080,6 +1082,16 @@ func (e *Exec) snapshot() *Snapshot {
 	sk := c.App.SettlementKeeper
 	for _, t := range sk.GetAllTenants(ctx) {
 		ts := TenantSnap{Id: t.Id, Denom: e.histDenom(t.Denom), Period: t.PayoutPeriod, Method: methodCode(t.PayoutMethod)}
+		if ts.Method == 1 {
+			// a token contract the module did not deploy: reserved address (3) or an address without code (4);
+			// an imported tenant may have none at all, the call then goes to the zero address
+			ca := common.HexToAddress(t.ContractAddress)
+			if reservedAddress(t.ContractAddress) {
+				ts.Method = 3
+			} else if acc := c.App.EvmKeeper.GetAccountWithoutBalance(ctx, ca); acc == nil || !acc.IsContract() {
+				ts.Method = 4
+			}
+		}
 		for _, a := range t.Admins {
 			addr, err := sdk.AccAddressFromBech32(a)
 			if err != nil {
@@ -1228,11 +1240,20 @@ func (e *Exec) snapshot() *Snapshot {
 	return s
 }
 
-func (e *Exec) sbtBalance(tid uint64, a *big.Int) *big.Int {
+func (e *Exec) sbtBalance(tid uint64, a *big.Int) (bal *big.Int) {
 	caddr, ok := e.sbt[tid]
 	if !ok {
 		return new(big.Int)
 	}
+	if reservedAddress(caddr.Hex()) {
+		return new(big.Int) // nothing is ever minted there, and the EVM keeper of the harness must not be asked
+	}
+	// the observation itself must not bring the run down: a tenant may name any address as its token contract
+	defer func() {
+		if r := recover(); r != nil {
+			bal = big.NewInt(-1)
+		}
+	}()
 	abi := sbtABI()
 	res, err := e.C.App.EvmKeeper.CallEVM(e.C.Ctx(), abi, settlementtypes.ModuleAddress, caddr, false, "balanceOf", common.BigToAddress(a))
 	if err != nil {
